@@ -1,111 +1,206 @@
 /-
   C09 — Facility ownership follows the configured origin.
+
+  The semantics (`Sem.construct`) reads what the constructor does about the facilities from the
+  member-initialiser list of the wiring IR (`Sem.milFacts`); the generator side
+  (`createConstructor_mil`) says which initialisers `create_constructor` emits for each origin; the
+  two meet in the `build_*` theorems: for every model and configuration `Builder.build` accepts.
 -/
 import DznModel
-open Py Scoping Ast PortSel Shell Sem CppGen
+import DznProofs.C01Gen
+open Py Text Scoping Ast AstView PortSel Shell Sem CppGen Support
 
 namespace C09
+
+/-! ### what the generated member-initialiser list is -/
+
+def milCreate : List Str :=
+  [L "m_locator(std::move(FacilitiesCheck(prototypeLocator).clone().set(m_runtime).set(m_dispatcher)))",
+   L "m_encapsulee(m_locator)"]
+def milImport : List Str :=
+  [L "m_dispatcher(FacilitiesCheck(locator).get<dzn::pump>())", L "m_encapsulee(locator)"]
+
+def mvName (p : CppPortItf) : Str := (p.memberVar.map (·.name)).getD []
+
+/-- the initialiser of a multi-threaded provides port -/
+def provInit (p : CppPortItf) : Str :=
+  if p.isMc then
+    mvName p ++ L "(multiclientLog, \"" ++ p.name ++ L "\", [this](const auto& identifier) { return InitializePort" ++
+      p.capName ++ L "(identifier); })"
+  else mvName p ++ L "(m_encapsulee." ++ p.name ++ L ")"
+
+/-- the initialiser of a multi-threaded requires port -/
+def reqInit (p : CppPortItf) : Str := mvName p ++ L "(m_encapsulee." ++ p.name ++ L ")"
+
+def facMil : Origin → List Str | .create => milCreate | .import_ => milImport
+
+/-- the initialisers `create_constructor` emits: the facility part fixed by the origin, then one
+    initialiser per multi-threaded port -/
+theorem createConstructor_mil (fc : FC) (sn : Str) (fac : Facilities) (pp rp : List CppPortItf) (sfns : Ids)
+    (ctor : Constructor) (assigns : List Assign)
+    (h : createConstructor fc sn fac pp rp sfns = .ok (ctor, assigns)) :
+    ctor.mil = facMil fac.origin ++ (mtsPorts pp).map provInit ++ (mtsPorts rp).map reqInit := by
+  unfold createConstructor at h
+  dsimp only at h
+  cases hfo : fac.origin <;> simp only [hfo] at h
+  all_goals
+    simp only [bind, Except.bind, pure, Except.pure] at h
+    split at h
+    · cases h
+    split at h
+    · cases h
+    split at h
+    · cases h
+    split at h
+    · cases h
+    injection h with h
+    injection h with h _
+    subst h
+    rfl
+
+
+/-! ### what the semantics reads from that list -/
+
+/-- starts like a port initialiser (`m_p…`, `m_r…`) or like the initialiser of a port without
+    boundary member (`(`): none of the four facility initialisers does -/
+def portLike : Str → Bool
+  | 'm' :: '_' :: 'p' :: _ => true
+  | 'm' :: '_' :: 'r' :: _ => true
+  | '(' :: _ => true
+  | _ => false
+
+/-- the boundary member of a port is `m_pp…`, `m_rp…` or absent (what `create_cpp_portitf` produces) -/
+def MvShape (p : CppPortItf) : Prop := mvName p = [] ∨ ∃ r, mvName p = L "m_pp" ++ r ∨ mvName p = L "m_rp" ++ r
+
+theorem provInit_portLike (p : CppPortItf) (h : MvShape p) : portLike (provInit p) = true := by
+  unfold provInit
+  rcases h with h | ⟨r, h | h⟩ <;> split <;> simp [h, portLike]
+
+theorem reqInit_portLike (p : CppPortItf) (h : MvShape p) : portLike (reqInit p) = true := by
+  unfold reqInit
+  rcases h with h | ⟨r, h | h⟩ <;> simp [h, portLike]
+
+theorem any_eq_false_of_portLike (l : List Str) (x : Str) (hx : portLike x = false) (hl : ∀ m ∈ l, portLike m = true) :
+    l.any (fun m => decide (m = x)) = false := by
+  simp only [List.any_eq_false, decide_eq_true_eq]
+  intro m hm e
+  have := hl m hm
+  rw [e, hx] at this; cases this
+
+def factsCreate : MilFacts := { checks := true, cloneSet := true, encOwn := true, encProto := false, dispFromLocator := false }
+def factsImport : MilFacts := { checks := true, cloneSet := false, encOwn := false, encProto := true, dispFromLocator := true }
+
+theorem milFacts_of_mil (ir : ShellIR) (o : Origin) (rest : List Str) (hm : ir.mil = facMil o ++ rest)
+    (hr : ∀ m ∈ rest, portLike m = true) :
+    milFacts ir = (if o = .create then factsCreate else factsImport) := by
+  have hno : ∀ x, portLike x = false → rest.any (fun m => decide (m = x)) = false :=
+    fun x hx => any_eq_false_of_portLike rest x hx hr
+  unfold milFacts
+  simp only [hm]
+  cases o
+  · -- import
+    simp only [facMil, milImport, List.any_append, List.any_cons, List.any_nil, Bool.or_false]
+    rw [hno _ (by decide), hno _ (by decide), hno _ (by decide), hno _ (by decide)]
+    simp only [factsImport, Bool.or_false]
+    have h1 : containsSub (L "FacilitiesCheck(") (L "m_dispatcher(FacilitiesCheck(locator).get<dzn::pump>())") = true := by decide
+    simp [h1]
+  · -- create
+    simp only [facMil, milCreate, List.any_append, List.any_cons, List.any_nil, Bool.or_false]
+    rw [hno _ (by decide), hno _ (by decide), hno _ (by decide), hno _ (by decide)]
+    simp only [factsCreate, Bool.or_false]
+    have h1 : containsSub (L "FacilitiesCheck(")
+        (L "m_locator(std::move(FacilitiesCheck(prototypeLocator).clone().set(m_runtime).set(m_dispatcher)))") = true := by decide
+    simp [h1]
+
+
+/-! ### the constructed shell, for any wiring IR with such a list -/
+
+theorem runAssigns_fac (w : World) (as : List Assign) (a b : Str) (c : Option InterfaceD) :
+    (runAssigns w as a b c).fac = w.fac := by
+  unfold runAssigns
+  induction as generalizing w with
+  | nil => rfl
+  | cons x r ih => simp only [List.foldl_cons]; rw [ih]; split <;> rfl
+
+theorem compBind_fac (w : World) (s : Option (Str × EvDir × Str)) : (compBind w s).fac = w.fac := by
+  unfold compBind
+  generalize w.allPorts = l
+  induction l generalizing w with
+  | nil => rfl
+  | cons pi r ih =>
+    simp only [List.foldl_cons]
+    rw [ih]
+    obtain ⟨p, itf⟩ := pi
+    generalize itf.events = es
+    induction es generalizing w with
+    | nil => rfl
+    | cons e t iht =>
+      simp only [List.foldl_cons]; rw [iht]
+      split
+      · split <;> rfl
+      · split <;> rfl
+
+theorem construct_fac (ir : ShellIR) (ap gi pump runtime skip name extra) (w : World)
+    (h : construct ir ap gi pump runtime skip name extra = .ok w) : w.fac = facInfo ir pump runtime extra := by
+  unfold construct at h
+  split at h
+  · cases h
+  · injection h with h; subst h
+    rw [runAssigns_fac]
+    exact compBind_fac _ _
 
 /-- **create**: construction succeeds iff the user's prototype locator carries neither a dispatcher
     nor a runtime -/
 theorem create_succeeds_iff_no_facilities (ir : ShellIR) (ap gi) (pump runtime : Bool) (skip name extra)
-    (ho : ir.origin = .create) :
+    (ho : ir.origin = .create) (hf : milFacts ir = factsCreate) :
     (∃ w, construct ir ap gi pump runtime skip name extra = .ok w) ↔ (pump = false ∧ runtime = false) := by
-  unfold construct facilitiesCheck
-  rw [ho]
-  cases pump <;> cases runtime <;> simp
+  unfold construct ctorCheck facilitiesCheck
+  rw [ho, hf]
+  cases pump <;> cases runtime <;> simp [factsCreate]
 
 /-- **import**: construction succeeds iff the user's locator carries both -/
 theorem import_succeeds_iff_both_facilities (ir : ShellIR) (ap gi) (pump runtime : Bool) (skip name extra)
-    (ho : ir.origin = .import_) :
+    (ho : ir.origin = .import_) (hf : milFacts ir = factsImport) :
     (∃ w, construct ir ap gi pump runtime skip name extra = .ok w) ↔ (pump = true ∧ runtime = true) := by
-  unfold construct facilitiesCheck
-  rw [ho]
-  cases pump <;> cases runtime <;> simp
+  unfold construct ctorCheck facilitiesCheck
+  rw [ho, hf]
+  cases pump <;> cases runtime <;> simp [factsImport]
 
 /-- with `create`, the component gets a locator that is *not* the user's object and holds the
     shell's own dispatcher and runtime plus everything of the prototype, which is left unmodified;
     the shell posts to its own dispatcher and offers the locator accessor -/
-theorem create_owns_fresh_facilities (ir : ShellIR) (ap gi skip name) (extra : Bool) (w : World)
-    (ho : ir.origin = .create) (h : construct ir ap gi false false skip name extra = .ok w) :
+theorem create_owns_fresh_facilities (ir : ShellIR) (ap gi skip name) (pump runtime extra : Bool) (w : World)
+    (ho : ir.origin = .create) (hf : milFacts ir = factsCreate)
+    (h : construct ir ap gi pump runtime skip name extra = .ok w) :
     w.fac.compLocatorIsProto = false ∧ w.fac.compPump = .own ∧ w.fac.compRuntime = .own ∧
     w.fac.compExtra = extra ∧ w.fac.dispatcher = .own ∧ w.fac.hasLocatorAccessor = true ∧
     w.fac.protoKeysAfter = w.fac.protoKeysBefore := by
-  unfold construct facilitiesCheck at h
-  rw [ho] at h
-  simp only [Bool.false_eq_true, if_false] at h
-  injection h with h; subst h
-  have : ∀ (w : World) as a b c, (runAssigns w as a b c).fac = w.fac := by
-    intro w as a b c
-    unfold runAssigns
-    induction as generalizing w with
-    | nil => rfl
-    | cons x r ih => simp only [List.foldl_cons]; rw [ih]; split <;> rfl
-  have hcb : ∀ (w : World) s, (compBind w s).fac = w.fac := by
-    intro w s
-    unfold compBind
-    generalize w.allPorts = l
-    induction l generalizing w with
-    | nil => rfl
-    | cons pi r ih =>
-      simp only [List.foldl_cons]
-      rw [ih]
-      obtain ⟨p, itf⟩ := pi
-      generalize itf.events = es
-      induction es generalizing w with
-      | nil => rfl
-      | cons e t iht =>
-        simp only [List.foldl_cons]; rw [iht]
-        split
-        · split <;> rfl
-        · split <;> rfl
-  rw [this]
-  simp [hcb, facInfo, ho]
+  rw [construct_fac ir ap gi pump runtime skip name extra w h]
+  simp [facInfo, hf, factsCreate, ho]
 
 /-- with `import`, the shell uses the very dispatcher found in the user's locator, hands that
     locator itself to the component and offers no locator accessor -/
 theorem import_uses_user_facilities (ir : ShellIR) (ap gi skip name) (extra : Bool) (w : World)
-    (ho : ir.origin = .import_) (h : construct ir ap gi true true skip name extra = .ok w) :
+    (ho : ir.origin = .import_) (hf : milFacts ir = factsImport)
+    (h : construct ir ap gi true true skip name extra = .ok w) :
     w.fac.compLocatorIsProto = true ∧ w.fac.compPump = .proto ∧ w.fac.compRuntime = .proto ∧
     w.fac.dispatcher = .proto ∧ w.fac.hasLocatorAccessor = false ∧
     w.fac.protoKeysAfter = w.fac.protoKeysBefore := by
-  unfold construct facilitiesCheck at h
-  rw [ho] at h
-  simp only [Bool.not_true, Bool.false_eq_true, if_false] at h
-  injection h with h; subst h
-  have : ∀ (w : World) as a b c, (runAssigns w as a b c).fac = w.fac := by
-    intro w as a b c
-    unfold runAssigns
-    induction as generalizing w with
-    | nil => rfl
-    | cons x r ih => simp only [List.foldl_cons]; rw [ih]; split <;> rfl
-  have hcb : ∀ (w : World) s, (compBind w s).fac = w.fac := by
-    intro w s
-    unfold compBind
-    generalize w.allPorts = l
-    induction l generalizing w with
-    | nil => rfl
-    | cons pi r ih =>
-      simp only [List.foldl_cons]
-      rw [ih]
-      obtain ⟨p, itf⟩ := pi
-      generalize itf.events = es
-      induction es generalizing w with
-      | nil => rfl
-      | cons e t iht =>
-        simp only [List.foldl_cons]; rw [iht]
-        split
-        · split <;> rfl
-        · split <;> rfl
-  rw [this]
-  simp [hcb, facInfo, ho]
+  rw [construct_fac ir ap gi true true skip name extra w h]
+  simp [facInfo, hf, factsImport, ho]
 
-/-- a failing construction throws from `FacilitiesCheck`, i.e. before the component (or anything
-    else) exists: there is no world -/
+/-- a failing check fails the construction before the component exists (no world at all) -/
 theorem failure_before_component (ir : ShellIR) (ap gi pump runtime skip name extra) (e : Exc)
-    (h : facilitiesCheck ir.origin ir.structName pump runtime = some e) :
+    (h : ctorCheck ir pump runtime = some e) :
     construct ir ap gi pump runtime skip name extra = .error e := by
   unfold construct; rw [h]
+
+/-- **a constructor that never calls `FacilitiesCheck` never fails** — whatever the locator holds:
+    the check has to be in the member-initialiser list (this is what a generator that drops the
+    initialiser breaks) -/
+theorem no_check_no_failure (ir : ShellIR) (ap gi pump runtime skip name extra)
+    (h : (milFacts ir).checks = false) : ∃ w, construct ir ap gi pump runtime skip name extra = .ok w := by
+  unfold construct ctorCheck; rw [h]; exact ⟨_, rfl⟩
 
 /-- generator side: the `Locator()` accessor, the own runtime member and the `dzn/runtime.hh`
     include exist exactly for `create`; the dispatcher member is a reference exactly for `import` -/
@@ -114,5 +209,111 @@ theorem locator_accessor_iff_create (o : Origin) (s : Str) :
     ((createFacilities o s).runtime.isSome ↔ o = .create) ∧
     ((createFacilities o s).dispatcher.ty.pfix = .ref ↔ o = .import_) := by
   cases o <;> simp [createFacilities]
+
+/-! ### at the level of `Builder.build` -/
+
+theorem createCppPortItf_mv (d : DznPortItf) (sn : Str) (sfns : Ids) (p : CppPortItf)
+    (h : createCppPortItf d sn sfns = .ok p) : MvShape p := by
+  unfold createCppPortItf at h
+  simp only [bind, Except.bind, pure, Except.pure] at h
+  split at h
+  · cases h
+  · rename_i cap _
+    split at h <;> (injection h with h; subst h)
+    · left; rfl
+    · right
+      by_cases hd : d.port.dir = .provides
+      · exact ⟨cap, Or.inl (by simp [mvName, hd])⟩
+      · exact ⟨cap, Or.inr (by simp [mvName, hd])⟩
+    · right; exact ⟨cap, Or.inl (by simp [mvName])⟩
+
+theorem createFacilities_origin (o : Origin) (s : Str) : (createFacilities o s).origin = o := by
+  cases o <;> rfl
+
+/-- the member-initialiser list of the shell `Builder.build` generates, and what the semantics reads from it -/
+theorem build_milFacts (fc : FC) (cfg : Config) (b : BuildResult) (h : build fc cfg = .ok b) :
+    b.ir.origin = cfg.origin ∧
+    milFacts b.ir = (if cfg.origin = .create then factsCreate else factsImport) := by
+  unfold build at h
+  simp only [bind, Except.bind, pure, Except.pure] at h
+  split at h
+  · cases h
+  rename_i s hs
+  injection h with h
+  subst h
+  simp only
+  -- open buildShell
+  unfold buildShell at hs
+  simp only [bind, Except.bind, pure, Except.pure] at hs
+  split at hs
+  · cases hs
+  split at hs
+  · cases hs
+  split at hs
+  · cases hs
+  split at hs
+  · cases hs
+  split at hs
+  · cases hs
+  rename_i pp hpp
+  split at hs
+  · cases hs
+  rename_i rp hrp
+  split at hs
+  · cases hs
+  split at hs
+  · cases hs
+  rename_i ca hca
+  injection hs with hs
+  subst hs
+  obtain ⟨ctor, assigns⟩ := ca
+  refine ⟨rfl, ?_⟩
+  have hmil := createConstructor_mil fc _ _ pp rp _ ctor assigns hca
+  rw [createFacilities_origin] at hmil
+  have hshape : ∀ m ∈ (mtsPorts pp).map provInit ++ (mtsPorts rp).map reqInit, portLike m = true := by
+    intro m hm
+    simp only [List.mem_append, List.mem_map] at hm
+    rcases hm with ⟨p, hp, rfl⟩ | ⟨p, hp, rfl⟩
+    · obtain ⟨d, _, hcp⟩ := C01.mapM_mem _ _ _ hpp p (List.mem_filter.mp hp).1
+      exact provInit_portLike p (createCppPortItf_mv d _ _ p hcp)
+    · obtain ⟨d, _, hcp⟩ := C01.mapM_mem _ _ _ hrp p (List.mem_filter.mp hp).1
+      exact reqInit_portLike p (createCppPortItf_mv d _ _ p hcp)
+  exact milFacts_of_mil _ cfg.origin _ (by simp only; rw [hmil, List.append_assoc]) hshape
+
+/-- **C09 at the level of `Builder.build`, create**: for every model and configuration the builder
+    accepts with `facilities_origin = CREATE`, constructing the shell succeeds iff the user's
+    prototype locator carries neither dispatcher nor runtime; then the component's locator is the
+    shell's own (not the user's object) and holds the shell's own dispatcher and runtime plus the
+    user's other entries, the prototype is unmodified, the shell posts to its own dispatcher and
+    offers `Locator()` -/
+theorem build_create (fc : FC) (cfg : Config) (b : BuildResult) (h : build fc cfg = .ok b) (ho : cfg.origin = .create)
+    (pump runtime extra : Bool) (name : Str) :
+    ((∃ w, construct b.ir b.allPorts b.grantIndex pump runtime none name extra = .ok w) ↔ (pump = false ∧ runtime = false)) ∧
+    (∀ w, construct b.ir b.allPorts b.grantIndex pump runtime none name extra = .ok w →
+      w.fac.compLocatorIsProto = false ∧ w.fac.compPump = .own ∧ w.fac.compRuntime = .own ∧
+      w.fac.compExtra = extra ∧ w.fac.dispatcher = .own ∧ w.fac.hasLocatorAccessor = true ∧
+      w.fac.protoKeysAfter = w.fac.protoKeysBefore) := by
+  obtain ⟨h1, h2⟩ := build_milFacts fc cfg b h
+  rw [ho] at h1
+  simp only [ho, if_true] at h2
+  exact ⟨create_succeeds_iff_no_facilities b.ir _ _ pump runtime none name extra h1 h2,
+    fun w hw => create_owns_fresh_facilities b.ir _ _ none name pump runtime extra w h1 h2 hw⟩
+
+/-- **C09 at the level of `Builder.build`, import**: construction succeeds iff the user's locator
+    carries both dispatcher and runtime; then the shell uses that very dispatcher, hands the user's
+    locator object itself to the component and offers no locator accessor -/
+theorem build_import (fc : FC) (cfg : Config) (b : BuildResult) (h : build fc cfg = .ok b) (ho : cfg.origin = .import_)
+    (pump runtime extra : Bool) (name : Str) :
+    ((∃ w, construct b.ir b.allPorts b.grantIndex pump runtime none name extra = .ok w) ↔ (pump = true ∧ runtime = true)) ∧
+    (∀ w, construct b.ir b.allPorts b.grantIndex true true none name extra = .ok w →
+      w.fac.compLocatorIsProto = true ∧ w.fac.compPump = .proto ∧ w.fac.compRuntime = .proto ∧
+      w.fac.dispatcher = .proto ∧ w.fac.hasLocatorAccessor = false ∧
+      w.fac.protoKeysAfter = w.fac.protoKeysBefore) := by
+  obtain ⟨h1, h2⟩ := build_milFacts fc cfg b h
+  rw [ho] at h1
+  have hne : ¬ (Origin.import_ = Origin.create) := by decide
+  simp only [ho, hne, if_false] at h2
+  exact ⟨import_succeeds_iff_both_facilities b.ir _ _ pump runtime none name extra h1 h2,
+    fun w hw => import_uses_user_facilities b.ir _ _ none name extra w h1 h2 hw⟩
 
 end C09
